@@ -3,6 +3,7 @@ package main
 import (
 	"fmt"
 
+	"github.com/openconfig/gnmi/metadata"
 	"github.com/openconfig/gnmi/zzverif/seqmc"
 )
 
@@ -192,6 +193,16 @@ func specsC03(tier string) []seqmc.Spec {
 		cfg.ops = append(cfg.ops, del("t1", "s", 2), del("t1", "*", 4))
 		out = append(out, mkSpec(cfg, 40))
 	}
+	// a cache told not to export some metadata entries (WithExcludedMeta): whatever
+	// happens to their leaves, the feed replays to what queries return
+	{
+		cfg := &specCfg{name: "one target, cache built WithExcludedMeta(sync, connected) (closure)", targets: []string{"t1"}, eventDriven: true,
+			excludedMeta: []string{metadata.Sync, metadata.Connected},
+			oracles:      oset("errclass", "state", "feed", "replica", "caller", "remove")}
+		cfg.ops = append(cfg.ops, upd("t1", "x", 1, 1), upd("t1", "x", 2, 2), del("t1", "*", 3),
+			life("sync", "t1"), life("connect", "t1"), life("reset", "t1"), life("remove", "t1"), life("add", "t1"), op{kind: "updmeta"})
+		out = append(out, mkSpec(cfg, 40))
+	}
 	if tier == "thorough" {
 		mk("two targets, eventDriven=true, rich", true, 5, true)
 		mk("two targets, eventDriven=false, rich", false, 5, true)
@@ -229,6 +240,22 @@ func specsC14(tier string) []seqmc.Spec {
 			del("t1", "*", 3), life("sync", "t1"), life("reset", "t1"), life("remove", "t1"), life("add", "t1"), op{kind: "updmeta"})
 		out = append(out, mkSpec(cfg, depth))
 	}
+	// non-default cache options: a server name (the one metadata entry a Reset
+	// KEEPS), metadata entries excluded from the periodic export
+	mkOpt := func(name string, depth int, set func(*specCfg)) {
+		cfg := &specCfg{name: name, targets: []string{"t1"}, eventDriven: true,
+			oracles: oset("state", "replica", "frame", "reset", "remove", "feed")}
+		set(cfg)
+		cfg.ops = append(cfg.ops, upd("t1", "x", 1, 1), upd("t1", "x", 2, 2), del("t1", "*", 3),
+			life("sync", "t1"), life("connect", "t1"), life("connecterr", "t1"), life("reset", "t1"), life("remove", "t1"), life("add", "t1"), op{kind: "updmeta"})
+		out = append(out, mkSpec(cfg, depth))
+	}
+	optDepth := 5
+	if tier == "thorough" {
+		optDepth = 7
+	}
+	mkOpt("one target, cache built WithServerName", optDepth, func(c *specCfg) { c.serverName = "collector-7" })
+	mkOpt("one target, cache built WithExcludedMeta(sync, connected)", optDepth, func(c *specCfg) { c.excludedMeta = []string{metadata.Sync, metadata.Connected} })
 	if tier == "thorough" {
 		mk("3 targets", []string{"t1", "t2", "t3"}, 5)
 		mk("2 targets deep", []string{"t1", "t2"}, 6)
